@@ -1,8 +1,9 @@
 """
 C07 — mol2 written by molli reads back as the same molecule; typing tables exhaustive.
 
-Proof:  Molli.Props.C07 (split_join, read_write, read_write_many, text_second_cycle_fixed, numeric layer,
-        table lifts) + generated obligations Molli.Gen.Mol2Types (all Element x AtomType x AtomGeom states,
+Proof:  Molli.Props.C07 (split_join, read_write, read_write_many, read_write_preserves, coordinate_precision,
+        text_second_cycle_fixed(_many), every_emitted_type_token_accepted, element_preserved,
+        type_token_second_cycle_fixed) + generated obligations Molli.Gen.Mol2Types (all Element x AtomType x AtomGeom states,
         all bond types: every_emitted_token_accepted, element_preserved, second_cycle_fixed, set_model_agrees,
         bond_token_accepted, expressible_bond_type_preserved).
 Tie:    (i) typing tables regenerated exhaustively from the live Atom/Bond classes on every run;
@@ -113,7 +114,7 @@ def run(ctx):
 
     # ------------------------------------------------------------------ corpus + generated molecules
     specs = [c["spec"] for c in tl.load_corpus("C07") if "spec" in c]
-    n_gen = 260 if quick else 6000
+    n_gen = 260 if quick else 12000
     max_atoms = 24 if quick else 60
     for i in range(n_gen):
         specs.append(tl.gen_mol_spec(rng, en, max_atoms, specials=(i % 5 == 0)))
@@ -183,7 +184,7 @@ def run(ctx):
                             "Structure.loads_all_mol2 differs from the model reader", ts, tl.short_mols(cs), tl.short_mols(tl.parse_read_response(resp))))
 
     # ------------------------------------------------------------------ ensembles: conformer count and order
-    n_ens = 40 if quick else 600
+    n_ens = 40 if quick else 1500
     for i in range(n_ens):
         ctx.check_deadline()
         base = tl.gen_mol_spec(rng, en, 10, specials=False, name=rng.choice(["ens", "pentane", "a b", "x_1"]))
